@@ -66,6 +66,8 @@ def generate(ctx):
             cases.append({"op": "minimize_pair", "fa": a, "fb": variant(rng, a) if rng.random() < 0.8 else falib.rand_fa(rng, names=names, max_states=4)})
             continue
         cases.append({"op": rng.choice(["is_equivalent_to", "is_equivalent_to", "eq"]), "fa": a, "fb": b})
+    for _ in range(100 if ctx.tier == "quick" else 1500):
+        cases.append(fa_engine.rand_dfa_history(rng))
     return cases
 
 
